@@ -492,6 +492,26 @@ func probe(a arg) (string, string) {
 	return "", ""
 }
 
+// the same document twice, configuration changed in between
+type cfgArg struct {
+	Doc    mc.Bin `json:"doc"`
+	First  [3]int `json:"first_config"`  // rule, MaxObjectKeys, MaxInputLength
+	Second [3]int `json:"second_config"`
+}
+
+func probeCfgChange(a cfgArg) (string, string) {
+	defer reset()
+	l1 := a.First[2]
+	setup(arg{Rule: a.First[0], Max: a.First[1], MaxLen: &l1})
+	_, _ = size.DefaultParser([]byte(a.Doc), size.Rule(a.First[0]))
+	l2 := a.Second[2]
+	setup(arg{Rule: a.Second[0], Max: a.Second[1], MaxLen: &l2})
+	if k, d := probe(arg{Doc: a.Doc, Rule: a.Second[0], Max: a.Second[1], MaxLen: &l2}); k != "" {
+		return "after_configuration_change:" + k, fmt.Sprintf("after parsing the same document under rule=%d MaxObjectKeys=%d MaxInputLength=%d: %s", a.First[0], a.First[1], a.First[2], d)
+	}
+	return "", ""
+}
+
 // ---------------------------------------------------------------- generators
 func reg(doc string, a docAST) string {
 	registry[doc] = a
@@ -595,6 +615,37 @@ func main() {
 				if len(d1) <= 128 {
 					docs = append(docs, reg(d1, docAST{kind: 0, members: ms}))
 					docs = append(docs, reg(d2, docAST{kind: 0, members: rev}))
+				}
+			}
+		}
+		// unknown members nested 1..55 levels deep (arrays, objects, mixed), before / between / after value and unit
+		for depth := 1; depth <= 55; depth++ {
+			arr := strings.Repeat("[", depth) + strings.Repeat("]", depth)
+			obj := strings.Repeat(`{"a":`, depth) + "0" + strings.Repeat("}", depth)
+			mix := ""
+			for k := 0; k < depth; k++ {
+				if k%2 == 0 {
+					mix += "["
+				} else {
+					mix += `{"a":`
+				}
+			}
+			mix += "1"
+			for k := depth - 1; k >= 0; k-- {
+				if k%2 == 0 {
+					mix += "]"
+				} else {
+					mix += "}"
+				}
+			}
+			for _, nv := range []string{arr, obj, mix} {
+				for pos := 0; pos < 3; pos++ {
+					ms := []member{mv("value", "2", vGoodNum, 2), mu("unit", `"KiB"`, vString, "KiB")}
+					x := mx("x", nv)
+					ms = append(ms[:pos], append([]member{x}, ms[pos:]...)...)
+					if d := objDoc(ms, 0); len(d) <= 128 {
+						docs = append(docs, reg(d, docAST{kind: 0, members: ms}))
+					}
 				}
 			}
 		}
@@ -802,6 +853,22 @@ func main() {
 				reset()
 			})
 		}
+		pcfg := mc.NewProbe(r, "configuration_change", nil, probeCfgChange)
+		r.Phase("serial: the same document parsed twice with the configuration changed in between (MaxObjectKeys, rule, MaxInputLength): the second call is judged under the second configuration", "complete for depth 2 over the listed documents and configurations", func() {
+			cd := []string{`{"value":1,"unit":"B"}`, `{"x":1,"value":1,"unit":"B"}`, `{"x":1,"y":2,"value":1,"unit":"KiB"}`, `12`, `"1KiB"`, `{"value":1}`, `{"value":1,"unit":"B","z":[1,2]}`}
+			cfgs := [][3]int{{6, 16, 128}, {6, 0, 128}, {6, 1, 128}, {6, 2, 128}, {6, 3, 128}, {14, 16, 128}, {2, 16, 128}, {4, 16, 128}, {0, 16, 128}, {6, 16, 10}, {6, 16, 0}, {6, 16, 25}}
+			r.Serial(func(w *mc.W) {
+				for _, d := range cd {
+					for _, c1 := range cfgs {
+						for _, c2 := range cfgs {
+							w.Point()
+							pcfg.Do(w, cfgArg{mc.Bin(d), c1, c2})
+						}
+					}
+				}
+			})
+			reset()
+		})
 		r.Sample("document", arg{Doc: `{"x":1,"value":1,"unit":"B"}`, Rule: 6, Max: 2})
 		r.Sample("truncated", arg{Doc: `{"value":1,"unit":"B"`, Rule: 6, Max: 16})
 		r.Sample("trailing", arg{Doc: `5 x`, Rule: 2, Max: 16})
